@@ -1,6 +1,7 @@
 //! `chk <property-id>`: run the implementation side of a property's correspondence and direct
 //! oracles, writing the protocol described in ctx.rs to stdout.
 //! Environment: VERIF_SEED (default 1), VERIF_TIER (quick|thorough, default quick).
+mod aliases;
 mod ctx;
 mod items;
 mod props {
